@@ -153,7 +153,11 @@ func buildCatalogue(seed int64, rec *hook.Recorder, want int, withSpec bool) map
 			"d": gen.M{"anyOf": []interface{}{gen.M{"type": "string", "format": "email"}, gen.M{"type": "integer"}}},
 			"e": gen.M{"not": gen.M{"type": "string", "format": "uuid"}},
 			"f": gen.M{"oneOf": []interface{}{gen.M{"type": "integer"}, gen.M{"type": "string", "format": "date"}, gen.M{"type": "string", "format": "email"}}},
-		}}
+		},
+			// format checks below a pattern property and below additionalProperties (the object validator has resolved its patterns by then)
+			"patternProperties":    gen.M{"^x": gen.M{"type": "string", "format": "date"}},
+			"additionalProperties": gen.M{"type": "string", "format": "email"},
+		}
 		if r.Intn(2) == 0 {
 			s["oneOf"] = []interface{}{gen.M{"required": []interface{}{"a"}}, gen.M{"required": []interface{}{"zz"}}}
 		}
@@ -218,15 +222,29 @@ func buildCatalogue(seed int64, rec *hook.Recorder, want int, withSpec bool) map
 	}
 	// format-bearing workloads with instances that reach every format check (the panic injection points of C11)
 	fmtInsts := []string{
-		`{"a":"2020-01-01","b":"2020-01-01","c":["2020-01-01","a@b.co","a8098c1a-f86e-11da-bd1a-00112444be1e"],"d":"a@b.co","e":"zz","f":"2020-01-01"}`,
+		`{"a":"2020-01-01","b":"2020-01-01","c":["2020-01-01","a@b.co","a8098c1a-f86e-11da-bd1a-00112444be1e"],"d":"a@b.co","e":"zz","f":"2020-01-01","xd":"2020-01-02","other":"a@b.co"}`,
 		`{"a":"nope","b":"2020-01-01","c":["x"],"d":"zz","e":"a8098c1a-f86e-11da-bd1a-00112444be1e"}`,
-		`{"e":"zz","c":["2020-01-01","2020-01-02"],"a":"2020-01-01","f":"a@b.co"}`,
+		`{"e":"zz","c":["2020-01-01","2020-01-02"],"a":"2020-01-01","f":"a@b.co","xq":"nope","zz":"c@d.eu"}`,
 		`{"b":"nope","d":5,"e":"a8098c1a-f86e-11da-bd1a-00112444be1e","a":"2020-01-01","f":"nope"}`,
 	}
 	for i := 0; i < 2*len(fmtInsts); i++ {
 		st, _ := json.Marshal(formatty())
 		how := []string{"oneshot", "recycle"}[i%2]
 		add(schemaCall("os-format", st, []byte(fmtInsts[i%len(fmtInsts)]), how))
+	}
+	// closed objects with their own patterns at three levels: a validator that still holds another schema's patterns
+	// lets "xq" through (or rejects "kq") at the level it serves
+	for i := 0; i < want; i++ {
+		lvl := func(inner interface{}) gen.M {
+			m := gen.M{"type": "object", "additionalProperties": false, "patternProperties": gen.M{"^k": gen.M{}}}
+			if inner != nil {
+				m["properties"] = gen.M{"n": inner}
+			}
+			return m
+		}
+		st, _ := json.Marshal(lvl(lvl(lvl(nil))))
+		inst := []string{`{"xq":1,"kq":1,"n":{"xq":1,"kq":2,"n":{"xq":1,"kq":3}}}`, `{"kq":1,"n":{"kq":2,"n":{"kq":3}}}`, `{"xd":"2020-01-01","n":{"xe":1,"n":{"other":1}}}`}[i%3]
+		add(schemaCall("os-patterns", st, []byte(inst), []string{"oneshot", "recycle"}[i%2]))
 	}
 	// the documented invalid-schema panic, met lazily while validating (unresolvable $ref under a property, items, not)
 	for _, bad := range []string{
